@@ -352,6 +352,30 @@ def handler(sc, payload):
         umap = [[u.input.transaction_id.payload.hex(), u.input.index, u.output.to_cbor().hex()] for u in fresh_objs]
     res = {'umap': umap}
     adr = lambda h: Address.from_primitive(bytes.fromhex(h)) if h else None
+    if sc.get('retry'):
+        # a refused attempt on THIS builder first: the collateral is a UTxO with dozens of native assets and little ADA, so the
+        # minimum-ADA check of the collateral return refuses; the caller then puts the scenario's collaterals back (and whatever
+        # else the refused build rewrote: inputs, outputs) and asks again -- the reported build
+        saved = (list(b.inputs), list(b.outputs), list(b.collaterals))
+        poor = UTxO(TransactionInput(TransactionId(bytes([0xc0]) * 32), 7),
+                    TransactionOutput(Address(VerificationKeyHash(bytes([0x77]) * 28), network=b.context.network),
+                                      Value(3_500_000, MultiAsset({ScriptHash(bytes([0x5a]) * 28): Asset(
+                                          {AssetName(b'tok%02d' % k): 1 + k for k in range(60)})}))))
+        b.collaterals = [poor]
+        try:
+            if sc['mode'] == 'slice':
+                b._set_collateral_return(adr(sc.get('ret_addr')))
+            else:
+                b.build(change_address=adr(sc.get('change')), collateral_change_address=adr(sc.get('coll_change')),
+                        merge_change=bool(sc.get('merge_change')))
+            res['retry_first'] = 'built'
+        except Exception as e:
+            res['retry_first'] = err_kind(e)
+        b.collaterals = saved[2]
+        b.inputs[:] = saved[0]
+        b.outputs[:] = saved[1]
+        CALLS.clear()
+        INTERN[0] = Interner()
     if sc['mode'] == 'slice':
         try:
             b._set_collateral_return(adr(sc.get('ret_addr')))
